@@ -79,7 +79,7 @@ func oracleC01(w *h.Worker, b *h.Built, inst string, st *trie.SlimTrie, u *input
 			return &h.Viol{Sig: "get-false-negative", Msg: fmt.Sprintf("Get(%x) on retained key reports not found", k)}
 		}
 		if !b.Match(i, v) {
-			return &h.Viol{Sig: "get-wrong-value", Msg: fmt.Sprintf("Get(%x) = %v, want %v", k, v, want)}
+			return &h.Viol{Sig: "get-wrong-value", Msg: fmt.Sprintf("Get(%x) = %T(%v), want %T(%v)", k, v, v, want, want)}
 		}
 		if id < 0 {
 			return &h.Viol{Sig: "getid-negative", Msg: fmt.Sprintf("GetID(%x) = %d on retained key", k, id)}
